@@ -427,3 +427,83 @@ func underMakeInterface(v ssa.Value) ssa.Value {
 	}
 	return v
 }
+
+// ------------------------------------------------------------------ C11.R9
+// Round-4 seeds: (a) which attack a light-client-attack evidence claims is decided from the five header
+// fields that are deterministic functions of the previous block — dropping one misclassifies evidence that
+// differs only there (a lunatic attack is treated as equivocation and the guilty set is wrong);
+// (b) on restart every pending item is reloaded (no byte cap: the cap is for what goes into one block);
+// (c) the next pruning point is when the *oldest remaining evidence* expires (its own height + max age),
+// not max age from now — otherwise expired evidence stays pending, is proposed and is accepted in blocks.
+func init() {
+	register("C11", "R9", "K4+K5", "attack classification compares all five derived header fields; restart reloads all pending evidence; pruning is rescheduled from the oldest remaining evidence", 8, func(c *Ctx) {
+		w := c.W
+		if f := c.fn("types", "LightClientAttackEvidence.ConflictingHeaderIsInvalid"); f != nil {
+			fk := funcKey(f)
+			want := []string{"ValidatorsHash", "NextValidatorsHash", "ConsensusHash", "AppHash", "LastResultsHash"}
+			got := map[string]bool{}
+			for _, call := range w.callsTo(f, "bytes#Equal") {
+				a, b := w.expr(call.Common().Args[0]), w.expr(call.Common().Args[1])
+				for _, fld := range want {
+					if strings.HasSuffix(a, "."+fld) && strings.HasSuffix(b, "."+fld) && a != b {
+						got[fld] = true
+					}
+				}
+			}
+			for _, fld := range want {
+				c.Check(got[fld], fk+" :: compares "+fld+" of the trusted and the conflicting header", w.pos(f.Pos()), "bytes.Equal(trusted."+fld+", conflicting."+fld+")", "the field "+fld+" is not compared: a forged header differing only there is classified as derived correctly")
+			}
+			// and a difference in any one of them answers true
+			for _, g := range []string{"ValidatorsHash", "NextValidatorsHash", "ConsensusHash", "AppHash", "LastResultsHash"} {
+				gd := guardRe(g+" equal", `^true\(bytes\.Equal\(.*\.`+g+`, .*\.`+g+`\)\)$`)
+				dc := dummyCallOf(f)
+				if dc == nil {
+					c.Undecided(fk+" :: caller", w.pos(f.Pos()), "no caller of ConflictingHeaderIsInvalid found")
+					break
+				}
+				c.Check(c.ge().predicateEnsures(dc, f, gd, false, 1), fk+" :: answers false only if "+g+" is equal", w.pos(f.Pos()), "false ⇒ equal", "can answer 'derived correctly' although "+g+" differs")
+			}
+		}
+		if f := c.fn("evidence", "NewPool"); f != nil {
+			n := 0
+			for _, call := range w.callsTo(f, "evidence#Pool.listEvidence") {
+				n++
+				k, isC := constInt(callArgs(call)[1])
+				c.Check(isC && k == -1, funcKey(f)+" :: all pending evidence is reloaded at start", w.ipos(call), "listEvidence(pending, -1)", "pending evidence is reloaded under a byte limit ("+w.expr(callArgs(call)[1])+"): what does not fit is neither counted nor gossiped nor proposed again")
+			}
+			c.Check(n == 1, funcKey(f)+" :: reload of pending evidence found", w.pos(f.Pos()), "1", fmt.Sprintf("%d", n))
+		}
+		if f := c.fn("evidence", "Pool.removeExpiredPendingEvidence"); f != nil {
+			fk := funcKey(f)
+			n := 0
+			for _, r := range returnsOf(f) {
+				ret := r.(*ssa.Return)
+				h := w.arith(ret.Results[0])
+				if !strings.Contains(h, "MaxAgeNumBlocks") {
+					continue
+				}
+				n++
+				mh := regexp.MustCompile(`^\(\((.+)\.Height\(\) \+ .+\.Evidence\.MaxAgeNumBlocks\) \+ 1\)$`).FindStringSubmatch(h)
+				okH := mh != nil && !strings.Contains(mh[1], "State()") && !strings.Contains(mh[1], "LastBlock")
+				c.Check(okH, fk+" :: next pruning height is the expiry of the oldest remaining evidence", w.ipos(ret), "ev.Height() + MaxAgeNumBlocks + 1", "next pruning height is "+h)
+				t := w.expr(ret.Results[1])
+				mt := regexp.MustCompile(`^(.+)\.Time\(\)\.Add\(.+\.Evidence\.MaxAgeDuration\)`).FindStringSubmatch(t)
+				c.Check(mt != nil && mh != nil && mt[1] == mh[1], fk+" :: next pruning time is the expiry of the same evidence", w.ipos(ret), "ev.Time() + MaxAgeDuration", "next pruning time is "+t)
+			}
+			c.Check(n == 1, fk+" :: reschedule exit found", w.pos(f.Pos()), "1", fmt.Sprintf("%d", n))
+		}
+	})
+}
+
+// dummyCallOf: predicateEnsures wants a call for parameter substitution; with none at hand the parameters
+// keep their own names.
+func dummyCallOf(f *ssa.Function) ssa.CallInstruction {
+	w := worldFor(f)
+	if w == nil {
+		return nil
+	}
+	for _, cs := range w.callersOf(f) {
+		return cs
+	}
+	return nil
+}
